@@ -375,7 +375,9 @@ pub fn run(args: &Args, mon: &mut Mon) -> (String, Vec<&'static str>) {
     let thorough = args.thorough();
     let miri = cfg!(miri);
     let scale = args.param_u64("scale", 1);
-    let n_seg: u64 = if miri { 1 } else if thorough { 300 * scale } else { 24 * scale };
+    // ECDSA under Miri costs minutes per signature: the interpreter run covers the protobuf /
+    // conversion code (random messages, round trips) only
+    let n_seg: u64 = if miri { 0 } else if thorough { 300 * scale } else { 24 * scale };
     let seed = args.seed;
     par_run(mon, args.threads, n_seg, |i, m| {
         if !args.mine(i) {
@@ -388,7 +390,7 @@ pub fn run(args: &Args, mon: &mut Mon) -> (String, Vec<&'static str>) {
     });
 
     // RPC totality
-    let n_tot: u64 = if miri { 20 } else if thorough { 200_000 * scale } else { 20_000 * scale };
+    let n_tot: u64 = if miri { 600 } else if thorough { 200_000 * scale } else { 20_000 * scale };
     par_run(mon, args.threads, n_tot, |i, m| {
         if !args.mine(i) {
             return;
@@ -437,7 +439,7 @@ pub fn run(args: &Args, mon: &mut Mon) -> (String, Vec<&'static str>) {
     // paths produced by the combinator: value→rpc→value and rpc→value→rpc
     {
         let mut r = Rng::fork(seed, 0x18ff);
-        let n = if miri { 1 } else { 40 };
+        let n = if miri { 6 } else { 40 };
         for _ in 0..n {
             let (t, _) = gen_topology(&mut r, 1);
             let b = beacon(&mut r, &t, 5, true, 1_700_000_000, true);
